@@ -20,7 +20,16 @@ structure Cfg where
   cleanSession : Bool := false
   atLeastOnceMax : Int := 0
   exactlyOnceMax : Int := 0
+  reconnectWaitMin : Int := 3000000000     -- nanoseconds; the harness's default Config: 3 s and 20 s
+  reconnectWaitMax : Int := 20000000000
 deriving DecidableEq, Repr
+
+/-- `newClient` on the reconnect waits (client.go:333-341): zero minimum means one second, a negative one none at all, and the
+maximum is raised to the effective minimum when short -/
+def waitNorm (mn mx : Int) : Nat × Nat :=
+  let mn' : Int := if mn == 0 then 1000000000 else if mn < 0 then 0 else mn
+  let mx' : Int := if mx < mn' then mn' else mx
+  (mn'.toNat, mx'.toNat)
 
 /-- `Config.valid` apart from the Dialer test -/
 def Cfg.valid (c : Cfg) : Option Deny :=
